@@ -45,6 +45,9 @@ type WorkerPool struct {
 
 	// mutex is used to synchronize access to the WorkerPool.
 	mutex syncutils.RWMutex
+
+	// startMutex serializes Start calls, so that Start can wait for a previous shutdown without holding mutex.
+	startMutex syncutils.Mutex
 }
 
 // New creates a new WorkerPool with the given name and returns it.
@@ -64,17 +67,25 @@ func New(name string, opts ...options.Option[WorkerPool]) *WorkerPool {
 
 // Start starts the WorkerPool.
 func (w *WorkerPool) Start() *WorkerPool {
+	w.startMutex.Lock()
+	defer w.startMutex.Unlock()
+
+	if w.IsRunning() {
+		return w
+	}
+
+	// Wait for a previous shutdown to complete without holding the pool mutex: the dispatcher needs that mutex
+	// (IsRunning) to hand the remaining queued tasks to the workers. Only Start sets isRunning, and Start calls are
+	// serialized, so the pool cannot be started by anyone else in the meantime.
+	w.ShutdownComplete.Wait()
+
 	w.mutex.Lock()
 	defer w.mutex.Unlock()
 
-	if !w.isRunning {
-		w.ShutdownComplete.Wait()
+	w.isRunning = true
 
-		w.isRunning = true
-
-		w.startDispatcher()
-		w.startWorkers()
-	}
+	w.startDispatcher()
+	w.startWorkers()
 
 	return w
 }
